@@ -4,7 +4,7 @@ from vstatic import terms as T
 from vstatic.terms import sym, Term, Atom, lift, pretty
 from vstatic.effects import summaries
 from vstatic.argbind import resolve_callee
-from .common import B, agree_ref, selfattr, RECORD_NO_INLINE, dominates, component_resets, resets_all_pairs, unordered_sweep, prog_functions, inline_locals, family_nodes, new_helpers_of
+from .common import B, agree_ref, selfattr, RECORD_NO_INLINE, dominates, component_resets, resets_all_pairs, unordered_sweep, prog_functions, inline_locals, family_nodes, new_helpers_of, inline_helper_call
 
 REF_COPY = '''
 def copy(self):
@@ -172,7 +172,7 @@ def run(ctx):
             call.args[0].id in fi.all_params() and call.args[0].id == 'seed'
         if not ok and call is not None and len(call.args) == 1:
             # a child generator seeded by a draw from the owner's generator: default_rng(int(<owner>.rng.integers(...)))
-            arg = inline_locals(fi.node, call.args[0])          # `s = int(rng.integers(..)); default_rng(s)`
+            arg = inline_helper_call(ctx, fi, inline_locals(fi.node, call.args[0]))     # `s = int(rng.integers(..)); default_rng(s)`
             src = ast.unparse(arg)
             ok = '.rng.integers(' in src and not any(isinstance(x, ast.Call) and ast.unparse(x.func).endswith('time') for x in ast.walk(arg))
         ctx.ob('RNG', 'the generator is derived from the seed argument (or seeded by a draw from the owner\'s generator)', fi, ok,
@@ -190,7 +190,7 @@ def run(ctx):
         ctx.require(kids, f'{short}: no child constructions with a seed parameter found')
         for owner, n in kids:
             kw = [k for k in n.keywords if k.arg == 'seed']
-            val = inline_locals(owner.node, kw[0].value) if kw else None
+            val = inline_helper_call(ctx, owner, inline_locals(owner.node, kw[0].value)) if kw else None
             src = ast.unparse(val) if kw else None
             ok = bool(kw) and isinstance(val, ast.Call) and 'self.rng.integers' in src
             ctx.ob('RNG', 'each child stream/antenna is seeded by its own draw from the owner\'s generator', fi, ok,
